@@ -540,7 +540,11 @@ where
 		));
 	}
 
-	let orig_proof_info = tx_vec[0].clone().payment_proof;
+	// the sender's own entry: a self-send has a TxReceived entry under the same slate id as well
+	let orig_proof_info = tx_vec
+		.iter()
+		.find(|t| t.tx_type == TxLogEntryType::TxSent)
+		.and_then(|t| t.payment_proof.clone());
 
 	if orig_proof_info.is_some() && slate.payment_proof.is_none() {
 		return Err(Error::PaymentProof(
